@@ -311,14 +311,44 @@ func C06(c *core.Ctx) {
 			}
 			tr.WriteString("\n")
 			words := []string{"coop", "migros", "rent", "cinema", "atm", "gift"}
+			// odd scenarios: the training journal is an include tree, every candidate's bookings live in another
+			// file (the files arrive in any order), and some target descriptions share no word with the training data
+			split := k%2 == 1
+			parts := make([]strings.Builder, len(cands))
+			book := func(n int, w, a string) {
+				out := &tr
+				if split {
+					for ci, cnd := range cands {
+						if cnd == a {
+							out = &parts[ci]
+						}
+					}
+				}
+				fmt.Fprintf(out, "2020-02-%02d \"%s\"\nAssets:Bank %s 10 CHF\n\n", 1+n, w, a)
+			}
 			for n := 0; n < 4+r.Intn(8); n++ {
 				w := words[r.Intn(len(words))]
 				// the same description booked to two different accounts: a tie
 				a1, a2 := cands[r.Intn(len(cands))], cands[r.Intn(len(cands))]
-				fmt.Fprintf(&tr, "2020-02-%02d \"%s\"\nAssets:Bank %s 10 CHF\n\n2020-02-%02d \"%s\"\nAssets:Bank %s 10 CHF\n\n", 1+n, w, a1, 1+n, w, a2)
+				book(n, w, a1)
+				book(n, w, a2)
 			}
 			for n := 0; n < 5; n++ {
-				fmt.Fprintf(&tg, "2020-03-%02d \"%s %s\"\nAssets:Bank Expenses:TBD %d CHF\n\n", 1+n, words[r.Intn(len(words))], words[r.Intn(len(words))], 5+n)
+				w1, w2 := words[r.Intn(len(words))], words[r.Intn(len(words))]
+				if split && n%2 == 1 {
+					w1, w2 = "unheard", "of"
+				}
+				fmt.Fprintf(&tg, "2020-03-%02d \"%s %s\"\nAssets:Bank Expenses:TBD %d CHF\n\n", 1+n, w1, w2, 5+n)
+			}
+			if split {
+				for ci := range cands {
+					if parts[ci].Len() == 0 {
+						fmt.Fprintf(&parts[ci], "2020-02-20 \"once\"\nAssets:Bank %s 10 CHF\n\n", cands[ci])
+					}
+					os.MkdirAll(filepath.Join(dir, "tr"), 0o755)
+					os.WriteFile(filepath.Join(dir, "tr", fmt.Sprintf("c%d.knut", ci)), []byte(parts[ci].String()), 0o644)
+					fmt.Fprintf(&tr, "include \"tr/c%d.knut\"\n", ci)
+				}
 			}
 			os.WriteFile(filepath.Join(dir, "train.knut"), []byte(tr.String()), 0o644)
 			os.WriteFile(filepath.Join(dir, "target.knut"), []byte(tg.String()), 0o644)
